@@ -115,6 +115,11 @@ def run_case(case, ctx):
                 "nontrivial": case["n"] >= 2 and bool(case["sio"])}
     iv = case["iv"]
     arg = iv if (iv is None or isinstance(iv, str)) else {k: v for k, v in iv}
+    if case.get("ign", "clk") is None:
+        try:   # an earlier call on the same object (other pin handling) must leave no trace in the circuit or its blackboxes
+            cg.tx.sequential_unroll(c, 1, "d", "q", ignore_pins=["clk"], remove_unloaded=True)
+        except Exception:
+            pass
     try:
         uc, iomap = cg.tx.sequential_unroll(c, case["n"], "d", "q", ignore_pins=case.get("ign", "clk"), add_flop_outputs=case["afo"],
                                             initial_values=arg, remove_unloaded=case["ru"])
